@@ -32,6 +32,9 @@ func runC20(w *World, r *Report) {
 	hrFailsafeReactions(w, r, "R7")
 	hrSnapshotsAlwaysWritten(w, r, "R7")
 	hrManageSendsEverything(w, r, "R7")
+	hrUnmanageGlobalIsDelete(w, r, "R7")
+	hrCfgManagedProtocol(w, r, "R7")
+	r.Borrow(w, c11ClockKeepsMonotonicReading, map[string]string{"R4": "R3"})
 	hrCfgSPOEBackendName(w, r, "R2")
 	hrGlobalUnmanagedWithEndpoints(w, r, "R7")
 	hrTruncatingWrite(w, r, "R7")
